@@ -107,6 +107,8 @@ class Family:
                 return self.tasks[v["consumer"]](x=c)
             return self.tasks[v["consumer"]](c)
         if k == "readfile":
+            if v.get("kw"):
+                return self.tasks[v["callee"]](x=File(self.paths[v["file"]])) + x
             return self.tasks[v["callee"]](File(self.paths[v["file"]])) + x
         if k == "parse":
             return int(x.read().strip() or 0) + v["add"]
